@@ -39,7 +39,9 @@ namespace opensmt {
     bool static inline isIntString(char const *str) {
         if (str[0] == '\0') return false;
 
-        for (int i = str[0] == '-' ? 1 : 0; str[i] != '\0'; i++) {
+        int const first = str[0] == '-' ? 1 : 0;
+        if (str[first] == '\0') return false; // a lone minus sign is not a number
+        for (int i = first; str[i] != '\0'; i++) {
             if (not isDigit(str[i])) {
                 return false;
             }
